@@ -54,8 +54,11 @@ def check_plid(rep, prog, fm):
     want_in = Op("in", norm_id(fm, "plID"), None)
     okm = False
     for e in stores:
-        for c in conj(fm.norm(e.guard)):
-            if isinstance(c, Op) and c.op in ("in", "eq") and c.args[0] == norm_id(fm, "plID"):
+        ge = fm.norm(e.guard)
+        # the containment test may sit anywhere in the path condition (nested if, helper predicate, match counter);
+        # what counts is that the path to the store implies it
+        for c in walk(ge):
+            if isinstance(c, Op) and c.op in ("in", "eq") and c.args[0] == norm_id(fm, "plID") and implies(ge, c)[0]:
                 tgt = c.args[1]
                 if isinstance(tgt, Op) and tgt.op == "getitem" and tgt.args[1] == Const("PLID") and \
                         isinstance(tgt.args[0], Op) and tgt.args[0].op == "getitem" and tgt.args[0].args[1] == Const(1):
@@ -163,9 +166,15 @@ def check_src(rep, prog, fm):
     q = PT + "parsePelFromSRCID"
     stores = [e for e in fm.events if e.kind == "dict_store" and q in e.stack]
     inc = exc = None
+    guards = []
     for e in stores:
         g_all = fm.norm(e.guard)
-        for c in conj(g_all):
+        guards.append(g_all)
+        for c in walk(g_all):
+            if not (isinstance(c, Op) and c.op in ("in", "notin", "not")):
+                continue
+            if c.op == "not" and isinstance(c.args[0], Op) and c.args[0].op == "in":
+                c = Op("notin", *c.args[0].args)
             # a value that is only bound on some paths (the exclude file's text): keep the alternative this path implies
             if any(isinstance(x, Ite) for x in walk(c)):
                 c = pelx.specialise(c, g_all)
@@ -173,6 +182,12 @@ def check_src(rep, prog, fm):
                 inc = (e, c)
             if isinstance(c, Op) and c.op == "notin" and isinstance(c.args[1], Op) and c.args[1].op == "m:read":
                 exc = (e, c)
+    if inc is not None and exc is not None:
+        # a PEL is kept only on a path on which one of the two tests succeeded (whatever the control structure)
+        either = or_(and_(fm.arg("src"), inc[1]), exc[1])
+        loose = [g for g in guards if not implies(pelx.specialise(g, g), either)[0]]
+        rep.check(not loose, rule, "every path that keeps a PEL passed the --src or the --src-exclude test", q, "final_summary[eid] = summary",
+                  "a PEL can be kept without having passed the --src / --src-exclude test")
 
     def is_summary_src(t):
         return isinstance(t, Op) and t.op == "getitem" and t.args[1] == Const("SRC") and isinstance(t.args[0], Op) and \
